@@ -371,6 +371,14 @@ func (g *g2) object(depth int) M {
 			m["additionalProperties"] = M{"$ref": "#/definitions/" + rapid.SampledFrom(g.defs).Draw(g.t, "apdef")}
 			g.feats["additionalProperties-ref"] = true
 		}
+	case 3:
+		// a map whose values are objects with a rule of their own about further members
+		inner := M{"type": "object", "properties": M{"v": g.prim()}, "additionalProperties": rapid.SampledFrom([]any{false, true, M{"type": "string"}}).Draw(g.t, "apinner")}
+		m["additionalProperties"] = inner
+		g.feats["additionalProperties-nested"] = true
+	case 4:
+		m["additionalProperties"] = false
+		g.feats["additionalProperties"] = true
 	}
 	if g.chance(5, "odisc") {
 		if _, ok := props["name"]; !ok {
